@@ -213,6 +213,17 @@ NAMES = ["A", "B", "C", "D", "E", "F", "G", "H", "I", "J", "K", "L", "M", "N", "
 DISPLAYS = list("*-.?!+=#@0123456789abcdefghijklmnopqrstuvwxyz")
 
 
+def shadow_decl():
+    """a variant with #[display] declared BEFORE a variant that shares its first letter and has none"""
+    return {"name": None, "bits": None, "parsed_ok": True, "variants": [
+        {"name": "A", "disc": 0, "disc_kind": "int", "alts": [], "display": None, "fmt": "dec"},
+        {"name": "Stop", "disc": 1, "disc_kind": "int", "alts": [], "display": ord("*"), "fmt": "dec"},
+        {"name": "Ser", "disc": 2, "disc_kind": "int", "alts": [7], "display": None, "fmt": "bin"},
+        {"name": "Gap", "disc": 5, "disc_kind": "int", "alts": [], "display": ord("-"), "fmt": "hex"},
+        {"name": "G", "disc": 3, "disc_kind": "int", "alts": [], "display": None, "fmt": "dec"},
+    ]}
+
+
 def gen_decl(rng, force_max=None):
     """a well-formed enum declaration as a dict compatible with decls.decl_coq"""
     nv = rng.choice([2, 2, 3, 4, 5, 8, 16, 21, 32, 40])
